@@ -3,6 +3,7 @@ package main
 import (
 	"bytes"
 	"fmt"
+	"math"
 	"math/rand"
 	"strings"
 
@@ -57,12 +58,13 @@ func c03rSorted(g *genetics.Genome) bool {
 //   - exactly: nextInnovNum = max(0, max over genomes (number of the last gene + 1)); nextNodeId is the fold of
 //     "if counter < id of the last node then id + 1", hence between the maximum of the last ids and one more;
 //   - the counters dominate every number / id of every genome whose genes and nodes are in ascending order.
+//
 // Returns (some genome out of order, a counter below something held).
 func c03rCounters(pop *genetics.Population, bad func(key, what string)) (unsorted, short bool) {
 	_, ni, nn32 := genetics.VPopulationCounters(pop)
 	nn := int(nn32)
 	wantI, foldN, maxLastN := int64(0), 0, 0
-	maxI, maxN := int64(0), 0
+	maxI, maxN := int64(math.MinInt64), math.MinInt // nothing held yet (innovation numbers and ids may all be negative)
 	allSorted := true
 	for _, o := range pop.Organisms {
 		g := o.Genotype
